@@ -2,6 +2,8 @@ package main
 
 import (
 	"bufio"
+	"bytes"
+	"os/exec"
 	"encoding/json"
 	"flag"
 	"fmt"
@@ -128,6 +130,11 @@ func cmdCheck(args []string) {
 	ld := load()
 	fmt.Printf("[%s %s] loaded %s + harness in %.1fs\n", *prop, *tier, repoRoot, ld.loadS)
 
+	maxCross := 25
+	if *tier == "thorough" {
+		maxCross = 150
+	}
+	var cross []interp.CrossQuery
 	var inconclusive []string
 	var allViol []interp.Violation
 	var revs []runEvidence
@@ -151,7 +158,7 @@ func cmdCheck(args []string) {
 			budget, _ = time.ParseDuration(r.Budget)
 		}
 		ex := interp.NewExplorer(ld.prog, interp.RunConfig{Fn: fn, Name: r.Fn, Params: r.Params, Explore: r.Explore, PB: pb, Race: r.Race,
-			Workers: *workers, Budget: budget, SolverArgv: solverArgv(), Seed: seed, MaxSamples: 4, Unwind: r.Unwind})
+			Workers: *workers, Budget: budget, SolverArgv: solverArgv(), Seed: seed, MaxSamples: 4, Unwind: r.Unwind, MaxCross: maxCross})
 		ex.Run()
 		sched := "seq"
 		if r.Explore {
@@ -199,6 +206,7 @@ func cmdCheck(args []string) {
 			stubs[k] += n
 		}
 		samples = append(samples, ex.Samples...)
+		cross = append(cross, ex.Cross...)
 		tot.paths += ex.Paths
 		tot.dec += ex.Total.Decisions + ex.Total.SchedPoints
 		tot.oblig += ex.Total.Obligations
@@ -210,6 +218,16 @@ func cmdCheck(args []string) {
 		tot.unknown += ex.SolverStats.Unknown
 		solverS += ex.SolverTime.Seconds()
 		exhaustive = exhaustive && ex.Exhaustive
+	}
+
+	// ---- cross-check of solver-decided assertion queries with independent solvers ----
+	crossRes := map[string]interface{}{}
+	for _, alt := range [][]string{{"z3", "-in"}, {"cvc5", "--incremental", "--lang=smt2"}} {
+		agree, disagree, unknown := crossCheck(alt, cross)
+		crossRes[alt[0]] = map[string]int{"queries": len(cross), "agree": agree, "disagree": disagree, "unknown_or_error": unknown}
+		if disagree > 0 {
+			inconclusive = append(inconclusive, fmt.Sprintf("solver disagreement: %s contradicts %s on %d of %d assertion queries", alt[0], solverArgv()[0], disagree, len(cross)))
+		}
 	}
 
 	// ---- native cross-validation and replay ----
@@ -398,6 +416,7 @@ func cmdCheck(args []string) {
 			"solver":                        strings.Join(solverArgv(), " "),
 			"load_s":                        ld.loadS,
 			"cross_validation_mismatches":   mismatches,
+			"cross_solver_check":            crossRes,
 			"known_findings":                known,
 			"inconclusive":                  inconclusive,
 		},
@@ -427,4 +446,49 @@ func equalStrs(a, b []string) bool {
 		}
 	}
 	return true
+}
+
+// crossCheck re-discharges the given assertion queries with another solver (one process, (reset) between
+// queries) and compares the answers with the primary solver's.
+func crossCheck(argv []string, qs []interp.CrossQuery) (agree, disagree, unknown int) {
+	if len(qs) == 0 {
+		return
+	}
+	cmd := exec.Command(argv[0], argv[1:]...)
+	var in bytes.Buffer
+	for _, q := range qs {
+		in.WriteString("(push 1)\n")
+		in.WriteString(q.Script)
+		in.WriteString("(pop 1)\n")
+	}
+	cmd.Stdin = &in
+	done := make(chan []byte, 1)
+	go func() { out, _ := cmd.Output(); done <- out }()
+	var out []byte
+	select {
+	case out = <-done:
+	case <-time.After(180 * time.Second):
+		if cmd.Process != nil {
+			cmd.Process.Kill()
+		}
+		out = <-done
+	}
+	var answers []string
+	for _, l := range strings.Split(string(out), "\n") {
+		l = strings.TrimSpace(l)
+		if l == "sat" || l == "unsat" || l == "unknown" || strings.HasPrefix(l, "(error") {
+			answers = append(answers, l)
+		}
+	}
+	for i, q := range qs {
+		switch {
+		case i >= len(answers) || answers[i] == "unknown" || strings.HasPrefix(answers[i], "(error"):
+			unknown++
+		case answers[i] == q.Expect:
+			agree++
+		default:
+			disagree++
+		}
+	}
+	return
 }
